@@ -210,10 +210,12 @@ class CliTexts(Stage):
             g = rm.Gen(d, rm.vocab(specs), 1)
             cmds = [d.choice(['help matcher', 'help', 'connection', 'list', 'list ' + scripts.gen_matcher_text(d, g), 'matcher ' + scripts.gen_matcher_text(d, g), 'filter (', 'frob'])
                     for _ in range(d.int(0, 4))]
-            return dict(kind=k, lines=[wire.render(m, 'new') for m in specs], cmds=cmds, filter=scripts.gen_matcher_text(d, g) if d.chance(0.3) else None)
+            return dict(kind=k, lines=[wire.render(m, 'new') for m in specs], cmds=cmds, filter=scripts.gen_matcher_text(d, g) if d.chance(0.3) else None,
+                        both=d.choice([['-C', '--color'], ['--color', '-C'], ['--no-color', '--color']]))
+        both = d.choice([['-C', '--color'], ['--color', '-C'], ['--no-color', '--color'], ['--color', '--no-color']])
         if k == 'bad-option':
-            return dict(kind=k, argv=d.choice([['-f', '('], ['-b', 'a.b.c'], ['-l'], ['--nonsense'], ['-f', 'x ! y ! z', '-p'], ['-Crx', 'prog']]))
-        return dict(kind=k)
+            return dict(kind=k, both=both, argv=d.choice([['-f', '('], ['-b', 'a.b.c'], ['-l'], ['--nonsense'], ['-f', 'x ! y ! z', '-p'], ['-Crx', 'prog']]))
+        return dict(kind=k, both=both)
 
     def execute(self, case):
         from .. import cli
@@ -232,6 +234,15 @@ class CliTexts(Stage):
                 stdin = ''.join(c + '\n' for c in case['cmds']).encode() + b'q\n'
             rp = cli.run_main(['-C'] + base, stdin=stdin)
             rc = cli.run_main(['--color'] + base, stdin=stdin)
+            # both options at once: the tool says it ignores --color, so colour is disabled - in either order, long or short
+            both = case.get('both') or ['-C', '--color']
+            rb = cli.run_main(both + base, stdin=stdin)
+        if rb[0] is not None and rp[0] is not None:
+            ob, op = rb[1].decode('utf-8', 'replace'), rp[1].decode('utf-8', 'replace')
+            if ESC in ob or ESC in rb[2].decode('utf-8', 'replace'):
+                res.bad('cli:escape-with-colour-disabled:both-options', '%r: output carries escape sequences' % (both + base[:1],))
+            elif ob != op:
+                res.bad('cli:both-options-differ-from-no-color', '%r vs -C' % (both,))
         if rp[0] is None or rc[0] is None:
             res.label('timeout(inconclusive)')
             return res
